@@ -3,7 +3,7 @@
 with what was confirmed and what the checks said)."""
 import json, os, shutil, sys, glob
 ROOT = os.path.dirname(os.path.dirname(os.path.abspath(__file__)))
-for d in sorted(glob.glob("/tmp/seed_C*_out/change*") + glob.glob("/tmp/seed_C*_out/r2_*") + glob.glob("/tmp/seed_C*_out/r3_*") + glob.glob("/tmp/seed_C*_out/r5_*")):
+for d in sorted(glob.glob("/tmp/seed_C*_out/change*") + glob.glob("/tmp/seed_C*_out/r2_*") + glob.glob("/tmp/seed_C*_out/r3_*") + glob.glob("/tmp/seed_C*_out/r5_*") + glob.glob("/tmp/seed_C*_out/r7_*")):
     pid = d.split("/")[2][5:8]
     n = os.path.basename(d).replace("change", "")
     conf = os.path.join(d, "confirm.json")
